@@ -42,6 +42,8 @@ class CacheLock:
 
         try:
             self.cache_lock = portalocker.Lock(self.cache_lock_filename, timeout=1)
+            # Creating the Lock object only configures it; the lock is not taken until acquire() is called.
+            self.cache_lock.acquire()
         except portalocker.exceptions.LockException:
             raise CacheException(f"Could not lock cache using {self.cache_lock_filename}")
         pass
